@@ -655,3 +655,63 @@ func init() {
 	reg("C20.attr", checkC20)
 	reg("C20.conc", checkC20Conc)
 }
+
+// ---- a number as subscript of a map with string keys -----------------------------------------------------
+
+type C20IntIndexCase struct {
+	Typ  string `json:"typ"`
+	Expr string `json:"expr"`
+}
+
+type c20NamedStrMap map[string]string
+
+func c20IntIndexValue(typ string) interface{} {
+	switch typ {
+	case "map[string]string":
+		return map[string]string{"1": "one", "0": "zero", "65": "sixty-five", "10": "ten"}
+	case "map[string]int":
+		return map[string]int{"1": 101, "0": 100, "65": 165, "10": 110}
+	case "named":
+		return c20NamedStrMap{"1": "one", "0": "zero", "65": "sixty-five", "10": "ten"}
+	case "map[string]iface-typed":
+		return map[string]fmt.Stringer{"1": zStringer{"one"}, "0": zStringer{"zero"}, "65": zStringer{"sixty-five"}, "10": zStringer{"ten"}}
+	}
+	return nil
+}
+
+// checkC20IntIndex: x[1] on a map with string keys is the entry under "1" — for a typed Go map as
+// for a map[string]interface{} of the same content.
+func checkC20IntIndex(c C20IntIndexCase) error {
+	typed := c20IntIndexValue(c.Typ)
+	untyped := map[string]interface{}{}
+	rv := reflect.ValueOf(typed)
+	for _, k := range rv.MapKeys() {
+		untyped[k.String()] = rv.MapIndex(k).Interface()
+	}
+	src := "{{ " + c.Expr + " }}|{{ " + strings.ReplaceAll(c.Expr, "x[", "x['k' ~ ") + " is defined ? 'd' : 'u' }}"
+	src = "{{ " + c.Expr + " }}|{{ (" + c.Expr + ") is defined ? 'd' : 'u' }}"
+	ctxT := map[string]interface{}{"x": typed, "i": 1, "j": 65, "f": 10.0}
+	ctxU := map[string]interface{}{"x": untyped, "i": 1, "j": 65, "f": 10.0}
+	rt, ru := render1(src, ctxT), render1(src, ctxU)
+	if rt.Failed() != ru.Failed() || rt.Out != ru.Out {
+		return fmt.Errorf("%s with x a %s gives %v, with x a map[string]interface{} of the same content %v", src, c.Typ, rt, ru)
+	}
+	return nil
+}
+
+func TestC20IntIndex(t *testing.T) {
+	r := NewRec(t, "C20", "exhaustive: 4 typed Go maps with string keys that spell numbers (map[string]string, map[string]int, a named map type, a map of an interface type) x 9 subscripts that are numbers (literals, variables, sums, a float); oracle: the answer for a map[string]interface{} of the same content; all cases non-trivial")
+	defer r.Flush()
+	r.SetExhaustive()
+	for _, typ := range []string{"map[string]string", "map[string]int", "named", "map[string]iface-typed"} {
+		for _, ex := range []string{"x[1]", "x[0]", "x[65]", "x[10]", "x[i]", "x[j]", "x[i + 64]", "x[f]", "x[2]"} {
+			c := C20IntIndexCase{Typ: typ, Expr: ex}
+			r.Case(typ+ex, true, c)
+			if err := checkC20IntIndex(c); err != nil {
+				r.FailEnumKey(t, "C20.intindex", typ, c, err)
+			}
+		}
+	}
+}
+
+func init() { reg("C20.intindex", checkC20IntIndex) }
